@@ -193,3 +193,65 @@ UNITS += [
          assumptions=["normal sampler, log, pow, products uninterpreted: the unit decides only WHEN the U^(1/alpha) correction is applied"],
          note="GammaDistribution: the correction draw is applied iff the constructor boosted the shape (alpha < 1), in particular not at alpha == 1"),
 ]
+
+
+# ---------------------------------------------------------------------------
+# PoissonDistribution::operator(): the Gaussian branch returns a count
+# ---------------------------------------------------------------------------
+POI = "src/celeritas/random/distribution/PoissonDistribution.hh"
+POI_RULES = [
+    Rule(r"PoissonDistribution::lambda_threshold\(\)", "POI_THRESHOLD", "*", note="constexpr threshold (value re-read from the header each run)"),
+    Rule(r"std::exp\(", "__CPROVER_uninterpreted_exp(", "*", note="exp -> uninterpreted (direct branch; excluded by this unit's precondition)"),
+    Rule(r"generate_canonical<real_type>\(rng\)", "GC_draw(rng)", "*", note="canonical draw -> stub"),
+    Rule(r"sample_normal_\(rng\)", "NORMAL_sample(self, rng)", "*", note="NormalDistribution sample -> stub: ANY finite value (the normal distribution has unbounded support)"),
+    Rule(r"\bresult_type\{(\d+)\}", r"((result_type)\1)", "*", note="brace-initialised constant"),
+    Rule(r"\bresult_type\(", "(result_type)(", "*", note="functional cast"),
+    Rule(r"real_type\(0\.5\)", "((real_type)0.5)", "*", note="functional cast"),
+    Rule(r"(?<![\w.>])lambda_\b", "self->lambda_", "*", note="data member"),
+]
+
+
+def build_poisson(ctx):
+    import re
+    from vkit.extract import ExtractionDrift
+    th = ctx.func(POI, r"static CELER_CONSTEXPR_FUNCTION int lambda_threshold\(\)", [], name="PoissonDistribution::lambda_threshold")
+    m = re.search(r"return\s+(\d+)\s*;", th.body)
+    if not m:
+        raise ExtractionDrift("lambda_threshold() is not an integer literal")
+    pc = ctx.func(POI, r"^PoissonDistribution<RealType>::operator\(\)\(Generator& rng\) -> result_type", POI_RULES, name="PoissonDistribution::operator()")
+    return (HDR + """
+typedef unsigned int result_type;
+typedef struct Engine Engine;
+typedef struct { real_type lambda_; } PoissonDistribution;
+#define POI_THRESHOLD """ + m.group(1) + """
+double __CPROVER_uninterpreted_exp(double);
+real_type g_normal;    /* ghost: the normal deviate drawn (mean lambda, sigma sqrt(lambda)): any finite value */
+real_type GC_draw(Engine* rng) __CPROVER_assigns() __CPROVER_ensures(__CPROVER_return_value >= 0 && __CPROVER_return_value < 1);
+real_type NORMAL_sample(PoissonDistribution const* self, Engine* rng) __CPROVER_assigns(g_normal) __CPROVER_ensures(g_normal == __CPROVER_return_value && !__CPROVER_isnand(g_normal) && !__CPROVER_isinfd(g_normal) && g_normal <= 4e9);
+result_type POI_call(PoissonDistribution const* self, Engine* rng)
+/* Gaussian regime only (lambda above the threshold); the direct multiplication method's loop terminates with probability one only and is not part of this unit */
+__CPROVER_requires(self != 0 && self->lambda_ > POI_THRESHOLD && !__CPROVER_isinfd(self->lambda_))
+__CPROVER_assigns(g_normal)
+/* the sampled count is the deviate rounded to the nearest integer, and a deviate below -1/2 (possible for every lambda: the normal has unbounded support) gives ZERO, not a wrapped huge count */
+__CPROVER_ensures(g_normal + 0.5 >= 1 ? (__CPROVER_return_value >= 1 && __CPROVER_return_value <= g_normal + 0.5 && __CPROVER_return_value > g_normal - 0.5) : __CPROVER_return_value == 0)
+{""" + pc.body + """}
+void h_poi(void)
+{
+    PoissonDistribution d; Engine* e;
+    POI_call(&d, e);
+    VERIF_CANARY();
+}
+""")
+
+
+def _poi_argv(inputs, fl):
+    return [["poisson_battery"]]
+
+
+UNITS += [
+    Unit("c15_poisson_gauss", build_poisson, "h_poi", enforce="POI_call", replace=["NORMAL_sample", "GC_draw"], timeout=300, unwind=3, backend=["sat", "cvc5", "z3"],
+         must_have=[r"POI_call.postcondition"], checks=["--bounds-check", "--pointer-check", "--conversion-check", "--float-overflow-check"],
+         replay={"src": "replay/c15.cc", "argv": _poi_argv},
+         assumptions=["NormalDistribution returns any finite value <= 4e9", "direct (small-lambda) branch excluded by precondition: its loop terminates only with probability one"],
+         note="PoissonDistribution::operator() above the direct-method threshold: the result is the normal deviate rounded to the nearest count, with 0 for deviates below -1/2; the double -> unsigned conversion never sees a negative value"),
+]
